@@ -74,6 +74,47 @@ Section Merge.
   Qed.
 End Merge.
 
+(* What the repaired test establishes: stores map variables to values, a guard's value depends only on the
+   variables it mentions, a statement changes only the variables it assigns.  When no statement of a group assigns a
+   variable of the guard, the group is stable, hence (merge_sound) merging it is the interpreter's reading. *)
+Section Syntactic.
+  Variables var val : Type.
+  Definition store := var -> val.
+  Definition depends_only_on (g : store -> bool) (vs : list var) : Prop :=
+    forall s s', (forall x, In x vs -> s x = s' x) -> g s = g s'.
+  Definition writes_only (f : store -> store) (ws : list var) : Prop :=
+    forall s x, ~ In x ws -> f s x = s x.
+
+  Lemma disjoint_keeps g vs f ws :
+    depends_only_on g vs -> writes_only f ws -> (forall x, In x vs -> ~ In x ws) ->
+    forall s, g (f s) = g s.
+  Proof. intros Hg Hf Hd s. apply Hg. intros x Hx. apply Hf. apply Hd. exact Hx. Qed.
+
+  Theorem syntactic_stable (g : group store) vs :
+    depends_only_on (gc store g) vs ->
+    (forall f, In f (body store g) -> exists ws, writes_only f ws /\ forall x, In x vs -> ~ In x ws) ->
+    stable store g.
+  Proof.
+    intros Hg Hb f Hin s Hs.
+    assert (Hf : In f (body store g)).
+    { clear -Hin. induction (body store g) as [|a l IH]; [destruct Hin|].
+      destruct l as [|b l']; [destruct Hin|]. cbn [removelast] in Hin.
+      destruct Hin as [<-|Hin]; [left; reflexivity|right; apply IH; exact Hin]. }
+    destruct (Hb f Hf) as [ws [Hw Hd]].
+    rewrite (disjoint_keeps _ vs f ws Hg Hw Hd). exact Hs.
+  Qed.
+
+  Corollary merge_sound_syntactic : forall gs : list (group store),
+    Forall (fun g => exists vs, depends_only_on (gc store g) vs /\
+                     forall f, In f (body store g) -> exists ws, writes_only f ws /\ forall x, In x vs -> ~ In x ws) gs ->
+    forall s, run_each store (flat_map (expand store) gs) s = run_merged store gs s.
+  Proof.
+    intros gs Hall. apply merge_sound.
+    induction Hall as [|g gs' [vs [Hg Hb]] _ IH]; constructor; [|exact IH].
+    exact (syntactic_stable g vs Hg Hb).
+  Qed.
+End Syntactic.
+
 (* the witness: state = (<p>x, <p>y);  `<p>x <- 0 if <p>x > 1`, `<p>y <- <p>y + 1 if <p>x > 1`, then
    `<p>x <- <p>x + 3` unguarded; <p>x = 5, <p>y = 0 *)
 Definition wst := (Z * Z)%type.
